@@ -1,5 +1,6 @@
 import Driver.Core
 import Driver.Pure
+import Driver.Wallet
 /-
 One line per handler object. The first handler that understands a line answers it.
 -/
@@ -7,7 +8,8 @@ namespace ZV.Driver
 
 def registry : List Obj := [
   pureObj purePow,
-  pureObj pureRpc
+  pureObj pureRpc,
+  pureObj pureWallet
 ]
 
 end ZV.Driver
